@@ -471,10 +471,49 @@ def gen_histories(rng, n, maxn):
         yield {'op': 'shist', 'shape': shape, 'draws': draws}
 
 
+def cube_of(d, n, m, base=1):
+    return [[[base + (k * n + i) * m + j for j in range(m)] for i in range(n)] for k in range(d)]
+
+
+def gen_window_cubes(rng, n):
+    """window on cubes (depth, rows, cols): shape= (pad on the image axes), slice=, both, neither; one case in
+    three has (depth, rows) equal to the requested (rows, cols) while the image axes differ"""
+    for k in range(n):
+        d, r, c_ = rng.randint(1, 5), rng.randint(1, 5), rng.randint(1, 6)
+        a = cube_of(d, r, c_) if k % 2 else [rnd_arr(rng, r, c_) for _ in range(d)]
+        u = k % 6
+        if u in (0, 3):
+            tgt = [d, r]
+            if c_ == r:
+                a = [[row + [7] for row in sl] for sl in a]
+            yield {'op': 'window', 'a': a, 'shape': tgt, 'slice': None}
+        elif u == 1:
+            yield {'op': 'window', 'a': a, 'shape': [rng.randint(1, 7), rng.randint(1, 7)], 'slice': None}
+        elif u == 2:
+            yield {'op': 'window', 'a': a, 'shape': None, 'slice': None}
+        else:
+            r0, r1 = sorted((rng.randint(0, min(d, r)), rng.randint(0, min(d, r))))
+            c0, c1 = sorted((rng.randint(0, min(r, c_)), rng.randint(0, min(r, c_))))
+            if rng.random() < 0.2:
+                r0, r1, c0, c1 = rng.randint(-3, 6), rng.randint(-3, 6), rng.randint(-3, 7), rng.randint(-3, 7)
+            shp = [r1 - r0, c1 - c0] if u == 5 else None
+            if shp and rng.random() < 0.25:
+                shp[rng.randrange(2)] += 1
+            yield {'op': 'window', 'a': a, 'shape': shp, 'slice': [r0, r1, c0, c1]}
+
+
+def gen_window_cubes_exhaustive():
+    for d, r, c_ in itertools.product(range(1, 5), repeat=3):
+        a = cube_of(d, r, c_)
+        for N, M in itertools.product(range(1, 6), repeat=2):
+            yield {'op': 'window', 'a': a, 'shape': [N, M], 'slice': None}
+
+
 def generate(rng, tier):
     if tier == 'quick':
         yield from gen_geometry_random(rng, 700)
         yield from gen_dtypes(rng, 210)
+        yield from gen_window_cubes(rng, 90)
         yield from gen_shapes(rng, 150, 16)
         yield from gen_histories(rng, 40, 20)
         yield from gen_hexseg(rng, 14, 3)
@@ -482,6 +521,8 @@ def generate(rng, tier):
         yield from gen_geometry_random(rng, 4000)
         yield from gen_geometry_exhaustive()
         yield from gen_dtypes(rng, 2100)
+        yield from gen_window_cubes(rng, 600)
+        yield from gen_window_cubes_exhaustive()
         yield from gen_shapes(rng, 900, 24)
         yield from gen_histories(rng, 300, 24)
         yield from gen_hexseg(rng, 60, 5)
@@ -489,7 +530,7 @@ def generate(rng, tier):
 
 def classify(c):
     op = c['op']
-    if op in ('pad', 'rebin') and is3(c['a']):
+    if op in ('pad', 'rebin', 'window') and is3(c['a']):
         op = op + '3'
     if c.get('dtype'):
         return f'{op}:{c["dtype"]}'
@@ -527,6 +568,8 @@ def encode(c):
     if op == 'subarray':
         return [3] + enc_arr(c['a']) + list(c['shape']) + list(c['shift'])
     if op == 'window':
+        if is3(c['a']):
+            return [12] + enc_cube(c['a']) + C.enc_opt(c['shape'], list) + C.enc_opt(c['slice'], list)
         return [4] + enc_arr(c['a']) + C.enc_opt(c['shape'], list) + C.enc_opt(c['slice'], list)
     if op == 'boundary':
         return [5] + enc_arr(c['a']) + C.enc_q(Fraction(c['thr']))
@@ -595,6 +638,8 @@ def decode(c, ints):
     op = c['op']
     if op in ('pad', 'rebin'):
         return {'arr': flt(read_cubeq(rd) if is3(c['a']) else read_arrq(rd))}
+    if op == 'window' and is3(c['a']):
+        return {'arr': flt(read_cubeq(rd))}
     if op in ('subarray', 'window'):
         return {'arr': flt(read_arrq(rd))}
     if op == 'boundary':
@@ -914,6 +959,8 @@ def oracle(c, impl):
                 if impl['arr'][i][j] != a[i - sr // 2 + n // 2 + shr][j - sc // 2 + m // 2 + shc]:
                     return f'subarray sample ({i},{j}) is not the source sample at the same coordinate relative to the origin (+shift)'
         return None
+    if op == 'window' and is3(c['a']):
+        return window_cube_oracle(c, impl)
     if op == 'window':
         a = c['a']
         n, m = len(a), len(a[0])
@@ -1019,6 +1066,43 @@ def oracle(c, impl):
         return shape_oracle(c, impl)
     if op == 'hexseg':
         return hexseg_oracle(c, impl)
+    return None
+
+
+def slice_axes(a, s, axes):
+    """plain-list slicing of a cube along the image axes (1, 2) or along the leading axes (0, 1)"""
+    if axes == 'image':
+        return [[row[s[2]:s[3]] for row in sl[s[0]:s[1]]] for sl in a]
+    return [[list(row) for row in sl[s[2]:s[3]]] for sl in a[s[0]:s[1]]]
+
+
+def window_cube_oracle(c, impl):
+    a = c['a']
+    d, n, m = shape_of(a)
+    if d * n * m == 1 or (c['shape'] is None and c['slice'] is None):
+        return None if impl.get('arr') == flt(a) else 'window without shape/slice (or of a single value) is not the input'
+    if c['slice'] is not None:
+        s = c['slice']
+        if c['shape'] is not None and (s[1] - s[0] != c['shape'][0] or s[3] - s[2] != c['shape'][1]):
+            return None if impl.get('err') == 'AssertionError' else 'inconsistent shape/slice not refused'
+        if 'err' in impl:
+            return f'window raised {impl["err"]}'
+        # (r_start, r_end, c_start, c_end) index the image axes, the axes shape= and pad use
+        exp = np.array(flt(a))[:, s[0]:s[1], s[2]:s[3]]
+        got = np.array(impl['arr'], dtype=float).reshape(impl['shape'])
+        if got.shape != exp.shape or not np.array_equal(got, exp):
+            return (f'window(cube {(d, n, m)}, slice={s}) has shape {list(got.shape)}: it is not the slice of the image '
+                    f'axes (rows, cols) of every layer, shape {list(exp.shape)}')
+        return None
+    if 'err' in impl:
+        return f'window raised {impl["err"]}'
+    N, M = c['shape']
+    if impl['shape'] != [d, N, M]:
+        return f'window(cube {(d, n, m)}, shape={c["shape"]}) has shape {impl["shape"]}, expected {[d, N, M]} (= pad)'
+    for k, sl in enumerate(a):
+        msg = pad_oracle_2d(flt(sl), impl['arr'][k], N, M)
+        if msg:
+            return f'window(cube, shape=): layer {k}: {msg}'
     return None
 
 
@@ -1137,26 +1221,14 @@ def hexseg_oracle(c, impl):
 
 
 def known_match(f, c, impl):
-    if f['id'] == 'C20-rebin-cube-narrow-dtype':
-        # exactly: a CUBE of a narrow dtype whose result is the exact block sums cast back to that dtype,
-        # at least one of them not representable
-        if not (c['op'] == 'rebin' and is3(c['a']) and c.get('dtype') in NARROW and 'err' not in impl):
+    if f['id'] == 'C20-window-slice-cube-axes':
+        # exactly: a cube, slice= given, and the result is the numpy slice of the LEADING two axes
+        if not (c['op'] == 'window' and is3(c['a']) and c['slice'] is not None and 'err' not in impl):
             return False
-        fct, dt = c['f'], c['dtype']
-        n, m = len(c['a'][0]), len(c['a'][0][0])
-        if n % fct or m % fct or len(impl['arr']) != len(c['a']):
-            return False
-        lost = False
-        for sl, o in zip(c['a'], impl['arr']):
-            if len(o) != n // fct or (o and len(o[0]) != m // fct):
-                return False
-            for i in range(n // fct):
-                for j in range(m // fct):
-                    ex = sum(sl[i * fct + u][j * fct + v] for u in range(fct) for v in range(fct))
-                    if o[i][j] != cast_like(ex, dt):
-                        return False
-                    lost = lost or cast_like(ex, dt) != ex
-        return lost
+        s = c['slice']
+        lead = np.array(flt(c['a']))[s[0]:s[1], s[2]:s[3]]
+        got = np.array(impl['arr'], dtype=float).reshape(impl['shape'])
+        return got.shape == lead.shape and bool(np.array_equal(got, lead))
     if f['id'] == 'C20-hex-gap0-shared-edge':
         return (c['op'] == 'hexseg' and Fraction(c['gap']) == 0 and 'err' not in impl and impl.get('overlap', 0) > 0
                 and len(impl['shape']) == 3 and impl['shape'][0] == hexseg_expected_count(c)
@@ -1165,10 +1237,10 @@ def known_match(f, c, impl):
 
 
 def replay_known(f):
-    if f['id'] == 'C20-rebin-cube-narrow-dtype':
+    if f['id'] == 'C20-window-slice-cube-axes':
         lentil = C.import_lentil()
-        out = lentil.rebin(np.full((1, 4, 4), 200, dtype=np.uint8), 2)
-        return int(np.asarray(out, dtype=float).sum()) != 3200
+        out = lentil.window(np.arange(24.0).reshape(2, 3, 4), slice=(0, 1, 0, 2))
+        return out.shape == (1, 2, 4)
     if f['id'] == 'C20-hex-gap0-shared-edge':
         lentil = C.import_lentil()
         m = lentil.hex_segments(rings=1, seg_radius=8, seg_gap=0, antialias=False)
